@@ -2,7 +2,7 @@
     (size, tile) stream: exact closed form, disjointness, gap-freeness, order,
     overview-first, and the composition with the C06 byte-stream theorem. *)
 From Coq Require Import ZArith List Bool Lia Permutation.
-From OG Require Import Base.Result Base.ListSel Model.Roi Model.CogLayout Proofs.CogTilesProofs.
+From OG Require Import Base.Result Base.ListSel Model.Roi Model.CogLayout Proofs.CogLayoutProofs Proofs.CogTilesProofs.
 Import ListNotations.
 Open Scope Z_scope.
 
@@ -495,4 +495,89 @@ Lemma uniform_planes_map ax ns (lv : list level) :
 Proof.
   intros m0 m H0 Hin. apply in_map_iff in Hin as (l & <- & _).
   destruct lv as [|l0 lv]; [discriminate|]. simpl in H0. inversion H0; subst. reflexivity.
+Qed.
+
+Lemma make_levels_wf bs H W lv n :
+  bs <> [] -> Forall blk_pos bs -> 1 <= H -> 1 <= W ->
+  make_levels bs (H, W) = Ok (lv, n) ->
+  Forall (fun l => 1 <= fst (l_shape l) /\ 1 <= snd (l_shape l) /\ tile_ok (l_tile l)) lv.
+Proof.
+  intros Hne Hall HH HW E.
+  destruct (make_levels_spec bs H W Hne Hall HH HW) as (lv' & n' & nh & nw & E' & _ & _ & _ & Hn & Hlen & _ & _ & Hk).
+  rewrite E in E'. inversion E'; subst lv' n'. apply Forall_forall. intros l Hin.
+  apply In_nth_error in Hin as (j & Hj).
+  assert (Hlt : (j < length lv)%nat) by (apply nth_error_Some; congruence).
+  destruct (Hk (Z.of_nat j) ltac:(lia)) as (l' & Hl' & _ & Tok & _ & _ & _ & S1 & S2).
+  rewrite Nat2Z.id in Hl'. rewrite Hj in Hl'. inversion Hl'; subst. auto.
+Qed.
+
+Lemma make_levels_halving bs H W lv n k a b :
+  bs <> [] -> Forall blk_pos bs -> 1 <= H -> 1 <= W ->
+  make_levels bs (H, W) = Ok (lv, n) -> 0 <= k < n ->
+  nth_error lv (Z.to_nat k) = Some a -> nth_error lv (Z.to_nat (k + 1)) = Some b ->
+  fst (l_shape b) * 2 = fst (l_shape a) /\ snd (l_shape b) * 2 = snd (l_shape a).
+Proof.
+  intros Hne Hall HH HW E Hk Ea Eb.
+  destruct (make_levels_spec bs H W Hne Hall HH HW) as (lv' & n' & nh & nw & E' & _ & _ & _ & Hn & Hlen & PH & PW & Hlv).
+  rewrite E in E'. inversion E'; subst lv' n'. cbn zeta in *.
+  destruct (Hlv k ltac:(lia)) as (a' & Ea' & _ & _ & Sa & _).
+  destruct (Hlv (k + 1) ltac:(lia)) as (b' & Eb' & _ & _ & Sb & _).
+  rewrite Ea in Ea'. rewrite Eb in Eb'. inversion Ea'; inversion Eb'; subst a' b'.
+  rewrite Sa, Sb. cbn [fst snd]. destruct PH as (_ & _ & PH). destruct PW as (_ & _ & PW).
+  split; apply halving_exact with (n := n); auto.
+Qed.
+
+Definition metas_of (ax : axis) (ns : Z) (lv : list level) : list meta :=
+  map (fun l => Meta ax (l_shape l) (l_tile l) ns) lv.
+
+Lemma metas_of_wf ax ns lv :
+  1 <= ns ->
+  Forall (fun l => 1 <= fst (l_shape l) /\ 1 <= snd (l_shape l) /\ tile_ok (l_tile l)) lv ->
+  Forall wf_meta (metas_of ax ns lv).
+Proof.
+  intros Hns H. unfold metas_of. apply Forall_forall. intros m Hin.
+  apply in_map_iff in Hin as (l & <- & Hl). rewrite Forall_forall in H.
+  destruct (H l Hl) as (A & B & (C & _ & D & _)). unfold wf_meta. cbn. auto.
+Qed.
+
+(** _make_empty_cog on the three accepted array layouts *)
+Lemma make_metas_spec shape gshape ya bs ax yaxis :
+  yaxis_from_shape shape gshape ya = Ok (ax, yaxis) ->
+  bs <> [] -> Forall blk_pos bs -> Forall (fun d => 1 <= d) shape ->
+  exists H W ns lv n,
+    (match ax with
+     | YX => shape = [H; W] /\ ns = 1
+     | YXS => shape = [H; W; ns]
+     | SYX => shape = [ns; H; W]
+     end) /\
+    make_levels bs (H, W) = Ok (lv, n) /\
+    make_metas shape gshape ya bs = Ok (metas_of ax ns lv) /\
+    Forall wf_meta (metas_of ax ns lv) /\ uniform_planes (metas_of ax ns lv).
+Proof.
+  intros Hy Hne Hall Hpos.
+  assert (Gen : forall H W ns, 1 <= H -> 1 <= W -> 1 <= ns ->
+          exists lv n, make_levels bs (H, W) = Ok (lv, n) /\
+             Forall wf_meta (metas_of ax ns lv) /\ uniform_planes (metas_of ax ns lv)).
+  { intros H W ns HH HW Hns.
+    destruct (make_levels_spec bs H W Hne Hall HH HW) as (lv & n & nh & nw & E & _).
+    exists lv, n. split; [exact E|]. split; [|apply uniform_planes_map].
+    apply metas_of_wf; [exact Hns | exact (make_levels_wf bs H W lv n Hne Hall HH HW E)]. }
+  unfold make_metas. rewrite Hy. cbn [bind].
+  destruct shape as [|d0 [|d1 [|d2 [|d3 r]]]]; simpl in Hy; try discriminate.
+  - inversion Hy; subst. inversion Hpos as [|? ? P0 Hp1]; subst. inversion Hp1 as [|? ? P1 _]; subst.
+    destruct (Gen d0 d1 1 P0 P1 ltac:(lia)) as (lv & n & E & Wf & U).
+    exists d0, d1, 1, lv, n. split; [auto|]. split; [exact E|]. rewrite E. cbn [bind]. auto.
+  - inversion Hpos as [|? ? P0 Hp1]; subst. inversion Hp1 as [|? ? P1 Hp2]; subst.
+    inversion Hp2 as [|? ? P2 _]; subst.
+    assert (Cases : (ax = YXS /\ yaxis = 0) \/ (ax = SYX /\ yaxis = 1)).
+    { destruct ya as [ya|]; [destruct (ya =? 0); inversion Hy; auto|].
+      destruct ((d2 =? 3) || (d2 =? 4)); [inversion Hy; auto|].
+      destruct gshape as [g|]; [|inversion Hy; auto].
+      destruct (zz_eq g (d0, d1)); [inversion Hy; auto|].
+      destruct (zz_eq g (d1, d2)); [inversion Hy; auto | discriminate]. }
+    destruct Cases as [(-> & ->) | (-> & ->)].
+    + destruct (Gen d0 d1 d2 P0 P1 P2) as (lv & n & E & Wf & U).
+      exists d0, d1, d2, lv, n. split; [auto|]. split; [exact E|]. rewrite E. cbn [bind]. auto.
+    + destruct (Gen d1 d2 d0 P1 P2 P0) as (lv & n & E & Wf & U).
+      exists d1, d2, d0, lv, n. split; [auto|]. split; [exact E|]. rewrite E. cbn [bind]. auto.
 Qed.
